@@ -11,7 +11,7 @@ part of the trusted base (DESIGN.md section 2).
 from fractions import Fraction
 from math import isqrt
 
-from .poly import Poly, Atom, opaque, to_frac, poly_syms, deep_subs, register_rebuild, atom_syms
+from .poly import Poly, Atom, opaque, to_frac, poly_syms, deep_subs, register_rebuild, atom_syms, DIFF_RULES
 
 
 class InterpRaise(Exception):
@@ -249,6 +249,13 @@ def un(name, p):
         ms = _monomial_sqrt(p)
         if ms is not None:
             return un("fabs", ms[1]).scale(ms[0])
+        if len(p.t) > 1:
+            # pull an exact rational square out of the radicand so that sqrt(u/4) and sqrt(u) share an atom
+            lead = min(p.t.items(), key=lambda mc: tuple((a.id, e) for a, e in mc[0]))[1]
+            if lead > 0 and lead != 1:
+                r = _exact_sqrt(lead)
+                if r is not None:
+                    return opaque("sqrt", p.scale(1 / lead)).scale(r)
     if name in ODD and _lead_negative(p):
         return -opaque(name, -p)
     if name in EVEN and _lead_negative(p):
@@ -363,6 +370,29 @@ def _remul(*args):
 
 register_rebuild("mul", _remul)
 register_rebuild("bigmul", _remul)
+
+
+def _install_diff_rules():
+    half = Fraction(1, 2)
+
+    def A(b):
+        return Poly.atom(b)
+    DIFF_RULES["recip"] = lambda b, a: -(A(b) * A(b)) * b.key[0].diff(a)
+    DIFF_RULES["sqrt"] = lambda b, a: (A(b).recip() * b.key[0].diff(a)).scale(half)
+    DIFF_RULES["sin"] = lambda b, a: un("cos", b.key[0]) * b.key[0].diff(a)
+    DIFF_RULES["cos"] = lambda b, a: -(un("sin", b.key[0]) * b.key[0].diff(a))
+    DIFF_RULES["tan"] = lambda b, a: (ONE + A(b) * A(b)) * b.key[0].diff(a)
+    DIFF_RULES["atan"] = lambda b, a: (ONE + b.key[0] * b.key[0]).recip() * b.key[0].diff(a)
+    DIFF_RULES["asin"] = lambda b, a: un("sqrt", ONE - b.key[0] * b.key[0]).recip() * b.key[0].diff(a)
+    DIFF_RULES["acos"] = lambda b, a: -(un("sqrt", ONE - b.key[0] * b.key[0]).recip() * b.key[0].diff(a))
+    DIFF_RULES["exp"] = lambda b, a: A(b) * b.key[0].diff(a)
+    DIFF_RULES["log"] = lambda b, a: b.key[0].recip() * b.key[0].diff(a)
+    DIFF_RULES["ite"] = lambda b, a: ite(b.key[0], b.key[1].diff(a), b.key[2].diff(a))
+    DIFF_RULES["series"] = lambda b, a: opaque("dseries", b.key[0], b.key[1], b.key[2]) * b.key[2].diff(a)
+    DIFF_RULES["fabs"] = lambda b, a: un("sign", b.key[0]) * b.key[0].diff(a)
+
+
+_install_diff_rules()
 
 
 def if_else(c, a, b, *rest):
@@ -985,14 +1015,15 @@ register_rebuild("series", lambda key, sq, p: opaque("series", key, sq, p))
 
 
 class SeriesDict:
-    def __init__(self, squared, keys):
+    def __init__(self, squared, keys, canon=None):
         self.squared = squared
         self._keys = list(keys)
+        self.canon = canon or {}
 
     def getitem(self, k):
         if k not in self._keys:
             raise InterpRaise("KeyError", repr(k))
-        return SeriesFn(k, self.squared)
+        return SeriesFn(self.canon.get(k, k), self.squared)
 
     def keys(self):
         return list(self._keys)
